@@ -172,10 +172,20 @@ def check(ctx):
             else:
                 ctx.ob("R-1", "integer-use:%s:%s" % (f.key, name), False,
                        "a ciborium Integer is handed to %s (only checked try_into is allowed)" % name, where=f.where(bb))
+    LABEL_DEC = "<common::Label as common::AsCborValue>::from_cbor_value"
+    via_label = set()
     for key in NARROW_TARGET:
-        ctx.ob("R-1", "site-present:%s" % key, any(f.key == key for f, _, _ in narrow),
-               "integer-interpreting position %s narrows through try_into" % key, kind="missing-anchor")
-    ctx.floor("R-1", "narrowing sites", len(narrow), 6)
+        f = prog.fns.get(key)
+        if f is not None and key != LABEL_DEC and not any(g.key == key for g, _, _ in narrow):
+            # the position may share the checked narrowing of the plain Label: `match Label::from_cbor_value(value)? { Int(i) => ..`
+            pvk = Prov(f)
+            if any(callee_path(t) == LABEL_DEC and pvk.operand_term(t["args"][0], bb, "term") == ("param", 0) for bb, t in f.calls()):
+                via_label.add(key)
+    for key in NARROW_TARGET:
+        ctx.ob("R-1", "site-present:%s" % key, any(f.key == key for f, _, _ in narrow) or key in via_label,
+               "integer-interpreting position %s narrows through try_into (itself, or through Label::from_cbor_value of its argument)" % key,
+               kind="missing-anchor")
+    ctx.floor("R-1", "narrowing sites", len(narrow) + len(via_label), 6)
 
     # ---- R-2 casts --------------------------------------------------------------------
     ncast = 0
